@@ -375,3 +375,30 @@ def code_span_roundtrip(viol, maxlen=5):
             if len(viol) - _v0 > 10:
                 break
     return n
+
+
+def escape_only_where_needed(viol, maxlen=3):
+    """markdown_escape_word escapes a word only if the word would start a block construct at the start of a line: for every
+    word over an alphabet of Markdown-significant characters, an escaped word is one that `<word> b` (flowmark's own Marko
+    configuration) does NOT read as a plain one-line paragraph of that text.  An escape that is not needed is not harmless:
+    the renderer keeps every escape, so a word that happened to start a wrapped line at one width stays escaped at every
+    other (C03: the result depends on the earlier layout; C02 across widths).  The opposite direction (a word that needs an
+    escape and gets none) is the recorded finding C01-wrap-escapes and is not counted here."""
+    _v0 = len(viol)
+    from flowmark.formats import flowmark_markdown as FM
+    from flowmark.linewrapping.text_wrapping import markdown_escape_word
+    md = FM.flowmark_markdown()
+    n = 0
+    for w in _strings(["-", "*", "+", ">", "#", "|", "~", "=", "_", ":", "1", "0", ".", ")", "a", "!", "[", "]", "&", "<"], maxlen):
+        n += 1
+        if markdown_escape_word(w) == w:
+            continue
+        doc = md.parse(w + " b\n")
+        ch = doc.children
+        plain = (len(ch) == 1 and type(ch[0]).__name__ == "Paragraph" and len(ch[0].children) == 1
+                 and type(ch[0].children[0]).__name__ == "RawText" and ch[0].children[0].children == w + " b")
+        if plain:
+            viol.append({"clause": "escape_only_where_needed", "input": {"word": w}, "got": markdown_escape_word(w), "want": w})
+            if len(viol) - _v0 > 10:
+                return n
+    return n
